@@ -234,11 +234,10 @@ def run_sequence(seq):
                     ns = {'__name__': f'c10gen{i}'}
                     exec(compile(src, f'<c10 gen {g}>', 'exec'), ns)  # noqa: S102
                     pname = [n for n in ns if n.endswith('Parser') and n != 'Parser'][0]
-                    parser = ns[pname]()
-                    handles_tmp.append(parser)
+                    handles_tmp.append(ns[pname]())  # the handle: a parser object nobody has used yet
                     t = GRAMMARS[g][1]
-                    return {'source': src, 'parser': pname, 'probe0': outcome(lambda: parser.parse(t[0])),
-                            'probe1': outcome(lambda: parser.parse(t[1]))}
+                    return {'source': src, 'parser': pname, 'probe0': outcome(lambda: ns[pname]().parse(t[0])),
+                            'probe1': outcome(lambda: ns[pname]().parse(t[1]))}
                 handles_tmp = []
                 last = outcome(gen)
                 handle = handles_tmp[0] if handles_tmp else None
@@ -395,7 +394,17 @@ def sequences(tier, seed):
                 add((('C', g, v), ('M', 0, 4, 'none'), ('M', 0, 1, 'none')), 'failed-then-good')
         for v in ('none', 'ignorecase'):
             add((('S', g, v), ('G', 0, 4), ('G', 0, 0)), 'failed-then-good')
-            add((('S', g, v), ('G', 0, 4), ('G', 0, 2)), 'failed-then-good')
+            add((('S', g, v), ('G', 0, 0), ('G', 0, 4)), 'good-then-good')
+            add((('S', g, v), ('G', 0, 3), ('G', 0, 0)), 'failed-then-good')
+        # a parse with per-call options, then a plain parse on the same model (a parse must not alter the model)
+        for v in (('none', 'asmodel') if tier == 'quick' else VARIANTS):
+            for pv in PARSE_VARIANTS:
+                if pv == 'none':
+                    continue
+                t = 3 if pv == 'start' else 1 if pv == 'ignorecase' else 0
+                add((('C', g, v), ('M', 0, t, pv)), 'single-chain')
+                add((('C', g, v), ('M', 0, t, pv), ('M', 0, 0, 'none')), 'parse-options-then-plain-parse')
+                add((('C', g, v), ('M', 0, t, pv), ('M', 0, 1, 'none')), 'parse-options-then-plain-parse')
     # cross grammar: type-name collision B/E both ways, and a seeded sample
     for a in allops['B']:
         for b in allops['E']:
@@ -441,7 +450,7 @@ def classify(seq, kind, got, ref):
     the last call shows model building that its own arguments do not ask for (or lacks it) -> asmodel leak;
     any other difference caused by an earlier call on the same grammar text -> settings of an earlier call leak"""
     last = seq[-1]
-    if kind in ('failed-then-good', 'good-then-good'):
+    if kind in ('failed-then-good', 'good-then-good', 'parse-options-then-plain-parse'):
         return 'earlier-parse-changes-later-parse-on-same-' + ('generated-parser' if last[0] == 'G' else 'model')
     gl = seq[last[1]][1] if last[0] in 'MG' else last[1]
     others = [o for o in seq[:-1] if o[0] in 'CPS' and not (last[0] in 'MG' and o is seq[last[1]])]
